@@ -527,15 +527,14 @@ def differential(check, prop_id, harness_engine, driver_engine, tier, seed, repl
     if corr_only:
         check.obligation_broken('correspondence: model and implementation differ on %d case(s) on which the property predicate still holds' % len(corr_only),
                                 '\n'.join(l[:1500] for l in corr_only[:10]))
-    check.coverage.update({
-        'evaluations': agg.get('cases', 0),
-        'distinct_nontrivial': agg.get('nontrivial', 0),
-        'traces_validated_against_impl': agg.get('cases', 0) - agg.get('corr_fail', 0) - agg.get('skipped', 0),
-        'samples': samples,
-        'disagreements': agg.get('corr_fail', 0),
-        'property_failures': agg.get('prop_fail', 0),
-        'input_distribution': dict({k: v for k, v in agg.items() if k not in ('cases', 'corr_fail', 'prop_fail', 'nontrivial')}, **maps),
-    })
+    cov = check.coverage
+    cov['evaluations'] = cov.get('evaluations', 0) + agg.get('cases', 0)
+    cov['distinct_nontrivial'] = cov.get('distinct_nontrivial', 0) + agg.get('nontrivial', 0)
+    cov['traces_validated_against_impl'] = cov.get('traces_validated_against_impl', 0) + agg.get('cases', 0) - agg.get('corr_fail', 0) - agg.get('skipped', 0)
+    cov['samples'] = cov.get('samples', []) + samples
+    cov['disagreements'] = cov.get('disagreements', 0) + agg.get('corr_fail', 0)
+    cov['property_failures'] = cov.get('property_failures', 0) + agg.get('prop_fail', 0)
+    cov.setdefault('input_distribution', {})[harness_engine] = dict({k: v for k, v in agg.items() if k not in ('cases', 'corr_fail', 'prop_fail', 'nontrivial')}, **maps)
     return agg, maps, failing, samples
 
 
